@@ -210,7 +210,8 @@ class EXXSphGenerator:
 
     @property
     def has_l1(self):
-        return self.plan.settings.n1terms > 0
+        # counts both the plain and the rdr l=1 terms (n1terms + n1dterms)
+        return self.plan.num_l1_feat > 0
 
     def reset_buffers(self):
         self._ao_buf = None
